@@ -52,7 +52,7 @@ Definition parse_line (line : text) : res (option stmt) :=
                     let s := firstn (S e) raw in
                     match create_operand s i with
                     | Ok o => Ok (Some (mk_stmt label i o s))
-                    | Diag _ => Internal E_VALUE          (* not inside the try: would escape *)
+                    | Diag _ => Diag 1                    (* inside a try since repair F51 *)
                     | Internal k => Internal k | OutOfFuel => OutOfFuel | Unmodelled => Unmodelled
                     end
                 end
